@@ -58,7 +58,7 @@ def main (args : List String) : IO UInt32 := do
   | ["dkgsm"] => loopState stdin stdout dkgStep {}; return 0
   | ["net"] => loopState stdin stdout netStep {}; return 0
   | ["netr"] => loopState stdin stdout Drand.Driver.NetRD.step {}; return 0
-  | ["cache"] => loopState stdin stdout cacheStep (Drand.Beacon.Cache.empty 96); return 0
+  | ["cache"] => loopState stdin stdout cacheStep (Drand.Beacon.Cache.empty 96 Gen.replaceSameIndex); return 0
   | ["stream", backend] => loopState stdin stdout streamStep' (streamDrvInit backend "asis"); return 0
   | ["stream", backend, variant] => loopState stdin stdout streamStep' (streamDrvInit backend variant); return 0
   | ["cbstore"] => loopState stdin stdout cbStep cbDrvInit; return 0
@@ -69,7 +69,7 @@ def main (args : List String) : IO UInt32 := do
   | ["hash"] => loopPure stdin stdout hashStep; return 0
   | ["secrecy"] => loopPure stdin stdout secrecyStep; return 0
   | ["codec"] => loopPure stdin stdout codecStep; return 0
-  | "crash" :: _ => loopState stdin stdout crashStep ({} : CrashSt); return 0
+  | "crash" :: mode => loopState stdin stdout crashStep ({ dedupe := mode.head? != some "all" } : CrashSt); return 0
   | "dispatch" :: _ => loopState stdin stdout dispatchStep dispatchInit; return 0
   | ["agg"] => loopState stdin stdout aggStep AggState.empty; return 0
   | ["dkgrun"] => loopPure stdin stdout dkgrunStep; return 0
